@@ -322,6 +322,97 @@ func c19R3(c *Ctx) {
 			})
 			c.check(hit == nil, "ensureClientExit/always-kills", c.pos(k.Pos()), "the armed guard always kills the helper", "the armed guard can end without killing the helper (a helper that hangs after its finish header is immune)", c.pathStr(path)...)
 		}
+		// the two watchdog timers end in the error path, and so do the bridge's own I/O failures
+		for _, nm := range []string{"zmodemTransfer.resetClientTimer$1", "zmodemTransfer.resetServerTimer$1"} {
+			cb := c.fn(nm)
+			hitT, pathT := reachFrom(cb.Blocks[0], 0, isReturn, c.orWrapper("zm-error-path", callTo("(*trzsz.zmodemTransfer).handleZmodemError")))
+			c.check(hitT == nil, nm+"/timeout=>error-path", c.pos(cb.Pos()), "a watchdog that fires takes the error path", "a watchdog timer can fire without the error path being taken: a stalled session is never cancelled and never handed back", c.pathStr(pathT)...)
+		}
+		hs := c.fn("zmodemTransfer.handleZmodemStream")
+		nIO := 0
+		eachInstr(hs, func(in ssa.Instruction) {
+			call, ok := in.(*ssa.Call)
+			if !ok {
+				return
+			}
+			isWrite := calleeID(&call.Call) == "trzsz.writeAll" && isFieldOfName(call.Call.Args[0], "serverIn")
+			isRead := call.Call.IsInvoke() && call.Call.Method.Name() == "Read"
+			if !isWrite && !isRead {
+				return
+			}
+			nIO++
+			ev := errorValueOf(call)
+			// from the call, over edges on which its error is non-nil and not EOF, the function does not end without the error path
+			for _, b := range hs.Blocks {
+				for k, sx := range b.Succs {
+					if len(b.Succs) != 2 || b.Succs[0] == b.Succs[1] {
+						continue
+					}
+					fs := edgeFactsTo(b, sx)
+					_, nonNil := factNil(fs, ev)
+					if !nonNil {
+						continue
+					}
+					_ = k
+					hitE, pathE := reachFromE(sx, 0, isReturn, c.orWrapper("zm-error-path", callTo("(*trzsz.zmodemTransfer).handleZmodemError")), func(from, to *ssa.BasicBlock) bool {
+						return factCmp(edgeFactsTo(from, to), token.EQL, isValue(ev), isEOFLoad)
+					})
+					what := "a failed write to the server"
+					if isRead {
+						what = "a failed read from the helper"
+					}
+					c.check(hitE == nil, "handleZmodemStream/"+map[bool]string{true: "read", false: "write"}[isRead]+"-failure=>error-path", c.ipos(call), "an I/O failure of the bridge takes the error path", what+" can end the bridge without the error path: nobody cancels the other side and the session is not handed back", c.pathStr(pathE)...)
+				}
+			}
+		})
+		if nIO < 2 {
+			c.undecided("handleZmodemStream/io-sites", "expected the bridge's read and write")
+		}
+		// each direction of the bridge records the finish header of its own side, and the final "over and out" goes out
+		// only when both sides have finished
+		for _, w := range []struct{ fn, flag string }{{"zmodemTransfer.handleZmodemStream", "clientFinished"}, {"zmodemTransfer.handleServerOutput", "serverFinished"}} {
+			g := c.fn(w.fn)
+			n := 0
+			for _, ci := range callsIn(g, anyID) {
+				for _, fl := range []string{"clientFinished", "serverFinished"} {
+					if isAtomicOnField(ci, fl, "CompareAndSwap", "Store") {
+						n++
+						c.check(fl == w.flag, "finish-flag/"+w.fn, c.ipos(ci), "the finish header seen in this direction sets this side's flag", "the finish header of one side sets the other side's flag: the final handshake is sent too early or never")
+					}
+				}
+			}
+			if n == 0 {
+				c.bad("finish-flag/"+w.fn, c.pos(g.Pos()), "this direction no longer records its side's finish header")
+			}
+		}
+		{
+			eo := c.fn("zmodemTransfer.ensureOverAndOut")
+			isL := func(fl string) func(ssa.Value) bool {
+				return func(v ssa.Value) bool { call, _ := callOf(v); return call != nil && isAtomicOnField(call, fl, "Load") }
+			}
+			isOO := func(in ssa.Instruction) bool {
+				call, ok := in.(*ssa.Call)
+				return ok && calleeID(&call.Call) == "trzsz.writeAll" && globalName(call.Call.Args[1]) == "zmodemOverAndOut"
+			}
+			for _, row := range []struct {
+				nm   string
+				as   []assumption
+				send bool
+			}{
+				{"both-finished", []assumption{{pred: isL("serverFinished"), val: true}, {pred: isL("clientFinished"), val: true}}, true},
+				{"server-only", []assumption{{pred: isL("serverFinished"), val: true}, {pred: isL("clientFinished"), val: false}}, false},
+				{"client-only", []assumption{{pred: isL("serverFinished"), val: false}, {pred: isL("clientFinished"), val: true}}, false},
+			} {
+				reach := blocksUnder(eo, row.as)
+				got := false
+				eachInstr(eo, func(in ssa.Instruction) {
+					if isOO(in) && reach[in.Block()] {
+						got = true
+					}
+				})
+				c.check(got == row.send, "ensureOverAndOut/"+row.nm, c.pos(eo.Pos()), "the final handshake is sent exactly when both sides have finished", "for '"+row.nm+"' the final handshake is "+map[bool]string{true: "sent", false: "not sent"}[got])
+			}
+		}
 		rct := c.fn("zmodemTransfer.resetCleanupTimer")
 		hit, path = reachFrom(rct.Blocks[0], 0, isReturn, c.orWrapper("zm-afterfunc", callTo("time.AfterFunc")))
 		c.check(hit == nil, "resetCleanupTimer/always-arms", c.pos(rct.Pos()), "re-arming always ends with a running clean-up timer", "re-arming the clean-up can return without a running timer: the session is never declared cleaned", c.pathStr(path)...)
